@@ -189,11 +189,12 @@ def writer_level(ctx):
   from . import writersys, writercheck, cachesys, sched
   wm = writersys.WriterModules(ctx.scratch)
   traces, origin = [], []
-  for (creates, updates) in ctx.pick([(6, 3), (120, 1)], [(6, 3), (120, 1), (60, 10), (12, 2), (600, 5)]):
-    wm.configure(creates, updates, None)
+  for (creates, updates, shut) in ctx.pick([(6, 3, None), (120, 1, None), (6, 2, 4), (30, 1, 2)],
+                                          [(6, 3, None), (120, 1, None), (60, 10, None), (12, 2, None), (600, 5, None), (6, 2, 4), (30, 1, 2), (60, 5, 50)]):
+    wm.configure(creates, updates, shut)
     for st in ('sorted', 'max'):
       rng = ctx.rng
-      nm = rng.randint(8, 14)
+      nm = rng.randint(8, 14) if shut is None else rng.randint(22, 28)      # plenty of creates still pending when the stop arrives
       r_ops = []
       vid = 0
       for rep in range(2):
@@ -204,16 +205,24 @@ def writer_level(ctx):
       run = writersys.WriterRun(wm, cfg, r_ops, faults=set(), preexisting=('m1', 'm2'))
       # the storing thread first, then the writer until it is idle, then the stop
       try:
-        tr, log = run.execute(sched.segment_chooser([('R', None), ('W', 4000), ('S', None), ('W', None)]))
+        # (with MAX_UPDATES_PER_SECOND_ON_SHUTDOWN the stop arrives while most of the work is still to do: the limits
+        # change there - 'set' event - and hold from then on)
+        tr, log = run.execute(sched.segment_chooser([('R', None), ('W', 4000 if shut is None else 60), ('S', None), ('W', None)]))
       except (sched.Blocked, sched.Deadlock, sched.StepLimit) as e:
         raise Machinery('writer-level run did not finish: %r' % e)
       ctx.evaluations += 1
       for op, cap, rn in (('create', creates, creates), ('write', updates, updates * 60)):
         times = [e['now'] for e in tr['ev'] if e['k'] == 'db' and e['op'] == op and e['ok']]
         if len(times) >= 2:
-          traces.append(dict(cap=cap, rn=rn, ev=[dict(op='try', now=t, ok=1, wait=0, c=0, r=0, tok=0, st=0) for t in times]))
+          evs = []
+          for e in tr['ev']:        # in the order things happened (the virtual clock may not move between them)
+            if e['k'] == 'db' and e['op'] == op and e['ok']:
+              evs.append(dict(op='try', now=e['now'], ok=1, wait=0, c=0, r=0, tok=0, st=0))
+            elif e['k'] == 'stopBefore' and shut is not None:
+              evs.append(dict(op='set', now=e['now'], ok=1, wait=0, c=shut, r=shut * 60, tok=0, st=0))
+          traces.append(dict(cap=cap, rn=rn, ev=evs))
           origin.append(dict(limit='MAX_CREATES_PER_MINUTE=%d' % creates if op == 'create' else 'MAX_UPDATES_PER_SECOND=%d' % updates,
-                             strategy=st, calls=len(times), first_and_last_ticks=[times[0], times[-1]]))
+                             strategy=st, calls=len(times), first_and_last_ticks=[times[0], times[-1]], MAX_UPDATES_PER_SECOND_ON_SHUTDOWN=shut))
   if not traces:
     raise Machinery('writer-level runs produced no rate-limited calls')
   verdicts = judge(ctx, 61440, traces, 'writer-level grants')
